@@ -659,19 +659,63 @@ def make_targets(ns, base, quick, tag):
     return specs
 
 
-def codec_requests(ctx, ns, n_values, n_invalid, n_strings):
+def extreme_value(e, mode, opt):
+    """Every integer leaf at an exact extreme of its width: mode min | max | neg1 | one; unions take option `opt` (mod count)."""
+    k = e[0]
+    if k == "u":
+        return {"min": 0, "max": (1 << e[1]) - 1, "neg1": (1 << e[1]) - 1, "one": 1}[mode]
+    if k == "i":
+        return {"min": -(1 << (e[1] - 1)), "max": (1 << (e[1] - 1)) - 1, "neg1": -1, "one": 1}[mode]
+    if k == "b":
+        return 0 if mode == "min" else 1
+    if k == "f":
+        return {"min": -1.0, "max": 1.0, "neg1": -0.0, "one": 0.5}[mode]
+    if k == "v":
+        return None
+    if k == "a":
+        return [extreme_value(e[1], mode, opt) for _ in range(e[2])]
+    if k == "l":
+        return [extreme_value(e[1], mode, opt) for _ in range(min(e[2], 2 if mode in ("min", "max") else 1))]
+    if k == "s":
+        return [extreme_value(f, mode, opt) for f in e[1]]
+    if k == "n":
+        kk = opt % len(e[1])
+        return (kk, extreme_value(e[1][kk], mode, opt))
+    if k == "d":
+        return extreme_value(e[2], mode, opt)
+    raise ValueError(e)
+
+
+def max_options(e):
+    k = e[0]
+    if k in "al":
+        return max_options(e[1])
+    if k == "s":
+        return max([1] + [max_options(f) for f in e[1]])
+    if k == "n":
+        return max([len(e[1])] + [max_options(f) for f in e[1]])
+    if k == "d":
+        return max_options(e[2])
+    return 1
+
+
+def codec_requests(ctx, ns, n_values0, n_invalid0, n_strings0):
     """-> list of dicts: {'gt', 'kind': 'ser'|'de', 'req': target request (with idx), 'model': protocol request, 'group': id, 'role': str}"""
     rng = ctx.rng
     out = []
     gid = 0
     for gt in ns.types:
         e = gt.expr
+        n_values, n_invalid, n_strings = n_values0, n_invalid0, n_strings0
         try:
             mx = (codec_ref.bounds(e)[1] + 7) // 8
         except Exception:
             continue
-        if mx > 3000:
+        if mx > 100000:
             continue
+        big = mx > 3000
+        if big:
+            n_values, n_invalid, n_strings = min(n_values, 3), min(n_invalid, 1), min(n_strings, 8)
         values, encodings = [], []
         tries = 0
         while len(values) < n_values and tries < 4 * n_values:
@@ -694,11 +738,37 @@ def codec_requests(ctx, ns, n_values, n_invalid, n_strings):
             for cap in caps:
                 out.append({"gt": gt, "kind": "ser", "req": f"serx {gt.index} {vs} {cap}", "model": f"serbuf {gt.tstr} {vs} {cap}", "group": gid,
                             "role": "serx", "valid": enc is not None})
+        # the exact extremes of every integer width (full-width INTn_MIN / INTn_MAX / UINTn_MAX included), every union option:
+        # serialized, and their encodings decoded under the sanitizers on every target
+        ext_enc = []
+        for mode in ("min", "max", "neg1", "one"):
+            for opt in range(min(max_options(e), 4 if ctx.quick else 8)):
+                v = extreme_value(e, mode, opt)
+                try:
+                    enc = codec_ref.ser(e, v)
+                except codec_ref.CodecError:
+                    continue
+                if enc in ext_enc:
+                    continue
+                ext_enc.append(enc)
+                vs = dsdlgen.fmt_value(e, v)
+                gid += 1
+                out.append({"gt": gt, "kind": "ser", "req": f"ser {gt.index} {vs}", "model": f"ser {gt.tstr} {vs}", "group": gid, "role": "ser", "valid": True})
+                ctx.count("codec_extreme_values")
+        # wide length prefixes: counts whose upper prefix bytes are non-zero and zero, so that a partially written `count` shows
+        if any(w in gt.tstr for w in ("(l ",)) and mx > 258:
+            for _ in range(3):
+                v = dsdlgen.gen_value(rng, e, oob=False, p_invalid=0.0)
+                try:
+                    ext_enc.append(codec_ref.ser(e, v))
+                except codec_ref.CodecError:
+                    pass
         strings = dsdlgen.gen_byte_strings(rng, encodings, n_random=6, max_len=min(mx + 9, 300), all_truncations_upto=12)
         if len(strings) > n_strings:
             keep = [b""] + encodings[:3]
             rest = [b for b in strings if b not in keep]
             strings = keep + rng.sample(rest, max(0, n_strings - len(keep)))
+        strings += [b for b in ext_enc if b not in strings]
         # EVERY truncation (cut at every byte) of the first valid encodings: the cuts fall inside bit-packed and unaligned arrays
         # and inside bulk-copied fragments, where implicit zero extension has to overwrite whatever the destination held
         n_enc, limit = (2, 72) if ctx.quick else (4, 400)
